@@ -8,6 +8,7 @@ import RubyTi.Model.Rbs
 import RubyTi.Model.C2json
 import RubyTi.Model.Suggest
 import RubyTi.Model.Namespace
+import RubyTi.Model.Match
 
 /-! Line-protocol driver over the executable model definitions (core-only, built as `lean_exe`).
 One op per input line, one answer line per op; the answer format is the one
@@ -216,6 +217,36 @@ def opFindNS (args : String) : String :=
     | _ => "BAD-ARGS"
   | _ => "BAD-ARGS"
 
+def atomT (s : String) : T :=
+  if s == "I" then T.makeAnyInt else if s == "S" then T.makeAnyString else if s == "F" then T.makeAnyFloat
+  else if s == "Y" then T.makeAnySymbol else if s == "B" then T.makeBool else if s == "N" then T.makeNil
+  else if s == "A" then T.makeAnyArray else if s == "H" then T.makeAnyHash else if s == "U" then T.makeUntyped
+  else if s == "K" then T.makeUnknown else if s == "L" then T.makeBlock else if s == "R" then T.makeRange
+  else if s.startsWith "O:" then T.makeObject (s.drop 2).toString.toList
+  else if s.startsWith "C:" then T.makeClass (s.drop 2).toString.toList
+  else if s.startsWith "v<" then
+    let inner := ((s.drop 2).toString.dropEnd 1).toString
+    T.makeUnion (((inner.splitOn ";").filter (· != "")).map fun x =>
+      if x == "I" then T.makeAnyInt else if x == "S" then T.makeAnyString else if x == "F" then T.makeAnyFloat
+      else if x == "Y" then T.makeAnySymbol else if x == "N" then T.makeNil else if x == "U" then T.makeUntyped
+      else if x.startsWith "O:" then T.makeObject (x.drop 2).toString.toList else T.makeBool)
+  else T.makeNil
+
+def recipeT (s : String) : T :=
+  if s.startsWith "u[" then
+    let inner := ((s.drop 2).toString.dropEnd 1).toString
+    T.makeUnion (((inner.splitOn ",").filter (· != "")).map atomT)
+  else atomT s
+
+def opMatch (args : String) : String :=
+  match args.splitOn " | " with
+  | [ds, as] =>
+    let d := recipeT ds.trimAscii.toString
+    let a := recipeT as.trimAscii.toString
+    let b (x : Bool) := if x then "1" else "0"
+    b (Match.isMatchType d a) ++ b (Match.isMatchUnionType d a) ++ b (Match.checkArg d a)
+  | _ => "BAD-ARGS"
+
 def rbsParam (s : String) : Rbs.Param :=
   if s == "_" then none else some (((s.splitOn ",").filter (· != "")).map String.toList)
 
@@ -272,6 +303,7 @@ def dispatch (line : String) : String :=
   else if name == "prio" then opPrio args
   else if name == "sortsig" then opSortSig args
   else if name == "suggest" then opSuggest args
+  else if name == "match" then opMatch args
   else if name == "namepred" then opNamePred args
   else if name == "findns" then opFindNS args
   else if name == "rbsargs" then opRbsArgs args
